@@ -110,4 +110,4 @@ def count(name, lines, ib, stats, meta):
     if name.startswith('flood_') and len(stats['samples']) < 4:
         lv = [int(b.kv.get('live', 0)) for b in ib if b.op.startswith('frame')]
         stats['samples'].append({'scenario': name, 'frames': len(lv), 'max_live': max(lv), 'final_live': lv[-1]})
-EXPLORE = dict(ops=('frame',), mtu=True)
+EXPLORE = dict(domain='frames', ops=('frame',), mtu=True)
